@@ -20,7 +20,8 @@ RULE = ("requests `fromf64|fromf32 <bit pattern>`; oracle: exact dyadic value ro
         "floats, every exponent boundary, subnormals, +-0, NaN payloads, infinities; plus seeded random bit patterns "
         "(uniform bits and uniform exponent). In-process exhaustive monitor `probe --sweep-f32` over f32 bit "
         "patterns with an exact u128 reference (quick: a 2^27 window chosen by the seed plus both edge windows; "
-        "thorough: all 2^32), sampled patterns cross-checked against the Python oracle. Non-trivial = fractional "
+        "thorough: all 2^32), sampled patterns cross-checked against the Python oracle; `probe --sweep-f64-grid`: every f64 exponent x every "
+        "pattern of the 12 (thorough: 17) leading fraction bits x tails {0, 1, half, all ones} x sign, same reference. Non-trivial = fractional "
         "value (negative binary exponent) or overflow boundary")
 BUILDS = {"quick": [("dev", ()), ("release", ())],
           "thorough": [("dev", ()), ("release", ()), ("release", ("packed",)), ("o0-nochk", ())]}
@@ -221,6 +222,14 @@ def main(tier, seed):
         print("INCONCLUSIVE property=C13 f32 sweep did not run: %s" % sw.get("error"))
         code = 3
         ev["verdict"] = "inconclusive"
+    # f64 grid: every exponent x all patterns of the leading fraction bits x {0, 1, half, all-ones} tails
+    binary = B.build("release", ())
+    gw = E.run_sweep(binary, ["--sweep-f64-grid", 12 if tier == "quick" else 17, E.NCPU])
+
+    def rl(ex):
+        parts = ex.split(" ")
+        return "fromf64 %s" % parts[2]
+    code = E.fold_sweep(ID, code, ev, "f64_grid_sweep", gw, tier, seed, rl)
     ev["wall_s"] = round(time.time() - t0, 2)
     E.write_evidence(ID, ev)
     return code
